@@ -237,13 +237,17 @@ async def _run(sc: dict, holder: dict | None = None) -> dict:
     t_base = loop.time()
 
     tasks: dict[int, asyncio.Task] = {}
+    shared: dict[str, Any] = {}
     if holder is not None:
         holder.update(R=R, tasks=tasks, ctx=proto._context)
 
     async def caller(c: dict) -> None:
         i = c["id"]
         cmd = R.cmds[i]
-        qos = QosParams(max_retries=c["mr"], timeout=c["to"], wait_for_reply=c.get("wfr"))
+        if sc.get("share_qos"):     # all callers hand the protocol the same QosParams object (as with the module default)
+            qos = shared.setdefault("qos", QosParams(max_retries=c["mr"], timeout=c["to"], wait_for_reply=c.get("wfr")))
+        else:
+            qos = QosParams(max_retries=c["mr"], timeout=c["to"], wait_for_reply=c.get("wfr"))
         R.rec(e="Call", i=i, k=c["kind"], n=c["mr"], p=c.get("prio", 0), a=tu(min(c["to"], 20.0)),
               b=1 if cmd.rx_header else 0, s="up" if connected["up"] else "down")
         try:
